@@ -246,8 +246,59 @@ func (e *Exec) intrinsic(fn *ssa.Function, name string, args []Value) (Value, bo
 		// symbolic string of concrete length n
 		n := e.constInt(args[1])
 		return &StringV{isSym: true, arr: e.st.Var(e.constString(args[0]), bytesSort), n: e.c64(n)}, true
+	case "vCmdBegin", "vCmdEnd":
+		return nil, true
+	case "vCmdFile":
+		e.cmd.fileName = args[0].(*StringV)
+		e.cmd.file = args[1].(*SliceV)
+		return nil, true
+	case "vCmdFlag":
+		e.cmd.flags[e.constString(args[0])] = args[1]
+		return nil, true
+	case "vCmdFlagUint":
+		e.cmd.flags[e.constString(args[0])] = args[1]
+		return nil, true
 	case "vOutLen":
-		return e.c64(int64(len(e.output[e.constString(args[0])]))), true
+		n := e.c64(0)
+		for _, sg := range e.cmd.out {
+			n = e.st.Bin(OpAdd, n, sg.n)
+		}
+		return n, true
+	case "vOutFlushed":
+		return e.st.Bool(e.cmd.flushed && e.cmd.closed), true
+	case "vOutByte":
+		i := e.constInt(args[0])
+		pos := int64(0)
+		for _, sg := range e.cmd.out {
+			if sg.n.op != OpConst {
+				e.unsupported("vOutByte beyond the concrete-length prefix of the output")
+			}
+			if i < pos+int64(sg.n.val) {
+				return e.st.Select(sg.arr, e.st.Bin(OpAdd, sg.off, e.c64(i-pos))), true
+			}
+			pos += int64(sg.n.val)
+		}
+		return e.st.Const(8, 0), true // beyond the end of the output
+	case "vOutEqAt":
+		// out[i+j] == b[j] where the output from offset i on is one chunk
+		i := e.constInt(args[0])
+		b := args[1].(*SliceV)
+		j := args[2].(*Term)
+		pos := int64(0)
+		for k, sg := range e.cmd.out {
+			if pos == i {
+				if k != len(e.cmd.out)-1 {
+					return e.st.False, true
+				}
+				bb := e.sliceBytes(b)
+				return e.st.Eq(e.st.Select(sg.arr, e.st.Bin(OpAdd, sg.off, j)), e.st.Select(bb.arr, e.st.Bin(OpAdd, b.off, j))), true
+			}
+			if sg.n.op != OpConst {
+				break
+			}
+			pos += int64(sg.n.val)
+		}
+		return e.st.False, true
 	}
 	return nil, false
 }
@@ -429,6 +480,52 @@ func (e *Exec) stub(fn *ssa.Function, full string, args []Value) (Value, bool) {
 			n = e.st.Bin(OpAdd, n, e.st.Zext(64, e.st.Extract(i, i, x)))
 		}
 		return n, true
+	case "flag.StringVar", "flag.UintVar", "flag.BoolVar", "flag.IntVar":
+		p := args[0].(*PtrV)
+		e.store(p, args[2])
+		e.cmd.regs = append(e.cmd.regs, flagReg{p, e.constString(args[1])})
+		return nil, true
+	case "flag.Parse":
+		for _, r := range e.cmd.regs {
+			if v, ok := e.cmd.flags[r.name]; ok {
+				e.store(r.p, v)
+			}
+		}
+		return nil, true
+	case "os.ReadFile":
+		if e.cmd.file == nil {
+			e.unsupported("os.ReadFile without vCmdFile")
+		}
+		e.cmd.readName = args[0].(*StringV)
+		return TupleV{e.cmd.file, &IfaceV{}}, true
+	case "os.Create":
+		e.objSeq++
+		return TupleV{&PtrV{obj: e.newObj(&OpaqueV{kind: "file", id: e.objSeq}, "file")}, &IfaceV{}}, true
+	case "(*os.File).Close":
+		e.cmd.closed = true
+		return &IfaceV{}, true
+	case "bufio.NewWriter":
+		e.objSeq++
+		return &PtrV{obj: e.newObj(&OpaqueV{kind: "bufio", id: e.objSeq}, "bufio")}, true
+	case "(*bufio.Writer).WriteByte":
+		arr := e.st.StoreArr(e.st.ConstArr(bytesSort, 0), e.c64(0), args[1].(*Term))
+		e.cmd.pending = append(e.cmd.pending, outSeg{arr, e.c64(0), e.c64(1)})
+		e.cmd.flushed = false
+		return &IfaceV{}, true
+	case "(*bufio.Writer).Write":
+		sl := args[1].(*SliceV)
+		if sl.obj != nil {
+			bb := e.sliceBytes(sl)
+			e.cmd.pending = append(e.cmd.pending, outSeg{bb.arr, sl.off, sl.len})
+		}
+		e.cmd.flushed = false
+		return TupleV{sl.len, &IfaceV{}}, true
+	case "(*bufio.Writer).Flush":
+		// contract: buffered data is guaranteed to reach the file only by Flush
+		e.cmd.out = append(e.cmd.out, e.cmd.pending...)
+		e.cmd.pending = nil
+		e.cmd.flushed = true
+		return &IfaceV{}, true
 	case "log.New":
 		e.objSeq++
 		return &PtrV{obj: e.newObj(&OpaqueV{kind: "logger", id: e.objSeq}, "logger")}, true
